@@ -376,7 +376,9 @@ def line_dc(rows, sum_, total, c, rr, quantity, is_charge):
             amount = pct_of(parse_pct(d["percent"]), base)
         if is_charge and d.get("rate") is not None:
             q = quantity if d.get("quantity") is None else parse(d["quantity"])
-            amount = parse(d["rate"]).mul(q)
+            # rate x quantity keeps every decimal of the product (repaired calculateLineCharges)
+            r = parse(d["rate"])
+            amount = r.up(r.e + q.e).mul(q)
         amount = apply_rr(rr, c, amount)
         total = total.add(amount) if is_charge else total.sub(amount)
         out.append(amount)
